@@ -17,12 +17,12 @@ import (
 // jv is a JSON-encodable value in a form that survives the JSON comment (strings hex-encoded:
 // they carry invalid UTF-8 on purpose).
 type jv struct {
-	K string // z null, b bool, i int, f float, s string, a array, o object, st struct, nan, ch
-	S string `json:",omitempty"`
-	I int64  `json:",omitempty"`
+	K string  // z null, b bool, i int, f float, s string, a array, o object, st struct, nan, ch
+	S string  `json:",omitempty"`
+	I int64   `json:",omitempty"`
 	F float64 `json:",omitempty"`
-	A []jv   `json:",omitempty"`
-	O []jkv  `json:",omitempty"`
+	A []jv    `json:",omitempty"`
+	O []jkv   `json:",omitempty"`
 }
 type jkv struct {
 	K string // hex
@@ -73,11 +73,11 @@ func (v jv) val() any {
 }
 
 type jsnCase struct {
-	Variant int // 0 JSON 1 IndentedJSON 2 PureJSON 3 SecureJSON 4 ASCIIJSON 5 JSONP
-	Code    int
+	Variant  int // 0 JSON 1 IndentedJSON 2 PureJSON 3 SecureJSON 4 ASCIIJSON 5 JSONP
+	Code     int
 	HasExtra bool   // prefix / callback argument given
-	Extra   string // hex
-	V       jv
+	Extra    string // hex
+	V        jv
 }
 
 // string material: ASCII, HTML-sensitive, BMP, line separators, astral, and every flavour of invalid UTF-8
